@@ -97,6 +97,10 @@ type spec struct {
 	Peers     []*peerSpec  `json:"peers,omitempty"`
 	Honest    []int64      `json:"honest,omitempty"`
 	BlockFail []int        `json:"block_fail,omitempty"`
+	// GetBlock fails at the BlockFail heights only in the first
+	// BlockFailTimes rounds (0: always). U and L: the call is repeated (by the
+	// harness / by the real handler after its pause) until the block is there
+	BlockFailTimes int `json:"block_fail_times,omitempty"`
 	// U: unusual scripts forced into blocks of the case's chain
 	Force []forceOut `json:"force,omitempty"`
 	// U: run on the first Tip blocks of the big chain (filter headers may
@@ -126,6 +130,7 @@ type spec struct {
 type result struct {
 	sp      spec
 	term    string // Gallina case term ("" if the case could not run)
+	more    []string // terms of further calls of the same case (retries after a failed block fetch)
 	hand    string // HU / HR: the rounds of the hand-off (term of ReplayHand.v)
 	sig     string
 	nontriv bool
@@ -507,21 +512,55 @@ func runU(sp *spec) (res result) {
 		panic(err)
 	}
 	defer bm.Quit()
-	gerr := bm.GetUncheckpointedCFHeaders()
-	ft, fh, ferr := e.FS.ChainTip()
-	fts := "None"
-	if ferr == nil {
-		fts = optPair(true, in.tok(*ft), int64(fh))
-	}
-	bans := w.sortedBans()
-	obs := fmt.Sprintf("(%s, %s, %s)", c.Bool(gerr != nil), zlist(bans), fts)
-	env := w.envTerm()
-	res.term = fmt.Sprintf("CU %s\n  %s %s\n  %s\n  %s\n  %s %s\n  %s", in.htab(),
-		runsOf(in.toks(ch.hashes)), runsOf(in.toks(ch.fheaders[:sp.FTip+1])),
-		c.List(w.raws), env, w.truthTerm(), honestTerm(sp), obs)
-	if hc == nil {
-		// the getcfheaders broadcasts the implementation sent
-		res.term = fmt.Sprintf("CQ %s (%s)", c.List(w.reqs), res.term)
+	var gerr error
+	var bans []int64
+	var obs string
+	ftipNow := sp.FTip
+	for call := 0; ; call++ {
+		if call > 0 {
+			// the retry: banned peers are gone, the block may be there now
+			w.mu.Lock()
+			gone := map[int64]bool{}
+			for _, b := range w.bans {
+				gone[b] = true
+			}
+			var left []*peerSpec
+			for _, p := range w.peers {
+				if !gone[p.ID] {
+					left = append(left, p)
+				}
+			}
+			w.peers, w.bans, w.raws, w.reqs = left, nil, nil, nil
+			w.envRows, w.envOrder = map[int]string{}, nil
+			if call >= sp.BlockFailTimes {
+				w.BlockFail = map[int]bool{}
+			}
+			w.mu.Unlock()
+		}
+		gerr = bm.GetUncheckpointedCFHeaders()
+		ft, fh, ferr := e.FS.ChainTip()
+		fts := "None"
+		if ferr == nil {
+			fts = optPair(true, in.tok(*ft), int64(fh))
+		}
+		bans = w.sortedBans()
+		obs = fmt.Sprintf("(%s, %s, %s)", c.Bool(gerr != nil), zlist(bans), fts)
+		env := w.envTerm()
+		term := fmt.Sprintf("CU %s\n  %s %s\n  %s\n  %s\n  %s %s\n  %s", in.htab(),
+			runsOf(in.toks(ch.hashes)), runsOf(in.toks(ch.fheaders[:ftipNow+1])),
+			c.List(w.raws), env, w.truthTerm(), honestTerm(sp), obs)
+		if hc == nil {
+			// the getcfheaders broadcasts the implementation sent
+			term = fmt.Sprintf("CQ %s (%s)", c.List(w.reqs), term)
+		}
+		if call == 0 {
+			res.term = term
+		} else {
+			res.more = append(res.more, term)
+		}
+		if hc != nil || sp.BlockFailTimes == 0 || call >= sp.BlockFailTimes || gerr == nil || ferr != nil || int(fh) != ftipNow {
+			break
+		}
 	}
 	res.sp.Obs = obs
 	res.sig = fmt.Sprintf("U:p%d:l%s:e%v:b%d", len(sp.Peers), lieSig(sp), gerr != nil, len(bans))
@@ -666,6 +705,11 @@ func genU(id int, seed int64, r *rand.Rand) *spec {
 			sp.Force = append(sp.Force, forceOut{Height: h, Kind: "cb-unparse"})
 		}
 		sp.Peers, sp.Honest = duelPeers(r, 1+r.Intn(2), 2+r.Intn(3), h, kind, r.Intn(3) != 0)
+		if r.Intn(3) == 0 {
+			// the block of the disputed height cannot be fetched (always /
+			// in the first one or two rounds): no verdict in those rounds
+			sp.BlockFail, sp.BlockFailTimes = []int{h}, r.Intn(3)
+		}
 		return sp
 	}
 	if r.Intn(6) == 0 && sp.FTip < sp.Tip {
@@ -903,6 +947,10 @@ func genR(id int, seed int64, r *rand.Rand) *spec {
 			p.CpMode = "own"
 		}
 		sp.BlockFail, sp.StoreLieFrom = nil, 0
+		if r.Intn(3) == 0 {
+			// the block of the disputed height cannot be fetched
+			sp.BlockFail = []int{h}
+		}
 		if sp.FTip >= h {
 			sp.FTip = r.Intn(h)
 		}
@@ -1525,6 +1573,9 @@ func main() {
 			hterms = append(hterms, fmt.Sprintf("(%d, (%s,\n  %s))", rs.sp.ID, rs.term, rs.hand))
 		} else if rs.term != "" {
 			terms = append(terms, fmt.Sprintf("(%d, %s)", rs.sp.ID, rs.term))
+			for _, t := range rs.more {
+				terms = append(terms, fmt.Sprintf("(%d, %s)", rs.sp.ID, t))
+			}
 		}
 		if rs.sp.Hand != nil {
 			rep.Histogram[fmt.Sprintf("handoff_rounds")] += len(rs.sp.Rounds)
